@@ -277,6 +277,10 @@ def compare_all(repo, only=None):
         # every selection / mask / branch of the reference is a function of the integer and flag fields only
         out.append((spec['name'], 'structure decided by real-valued model data (%s)' % e, False))
         continue
+      except (IndexError, KeyError, ValueError, ZeroDivisionError) as e:
+        # the interpreted loader itself fails on a valid (supported) model -- as the real one would
+        out.append((spec['name'], 'structure: load_model raises %s: %s on a supported model' % (type(e).__name__, str(e)[:80]), False))
+        continue
       for path, w in want.items():
         if only is not None and not path.startswith(only):
           continue
